@@ -131,6 +131,35 @@ func main() {
 		}
 	}
 
+	// the reader-side variants: a text the Reader accepts only under the option
+	for _, name := range gen.TextVariants {
+		rw := &row{Flag: map[string]string{"text:missing-file-header-record": "AllowMissingFileHeader", "text:missing-file-control-record": "AllowMissingFileControl"}[name],
+			Level: "reader", Kinds: map[string]int{}}
+		sum.Variants[name] = rw
+		fr := r.Fork()
+		for i := 0; i < *n; i++ {
+			rw.Tries++
+			f := gen.File(fr, gen.Opts{Addenda: true, IAT: i%3 == 0, Returns: i%2 == 0, NOC: i%5 == 0, MaxBatches: 3})
+			if i%7 == 0 {
+				f = gen.ADVFile(fr)
+			}
+			if _, _, ok := gen.TextNeedsOpts(fr, f, name); ok {
+				rw.Produced++
+				for _, k := range kinds(f) {
+					rw.Kinds[k]++
+				}
+			}
+		}
+		if float64(rw.Produced) < *minRate*float64(rw.Tries) {
+			sum.Failed = append(sum.Failed, fmt.Sprintf("%s: produced %d of %d", name, rw.Produced, rw.Tries))
+		}
+		for _, k := range []string{"std", "iat", "adv", "return", "noc"} {
+			if rw.Kinds[k] == 0 {
+				sum.Failed = append(sum.Failed, fmt.Sprintf("%s: never produced with %s content", name, k))
+			}
+		}
+	}
+
 	// the mixed entry point on files the variant was not chosen for
 	fr := r.Fork()
 	for i := 0; i < *n*4; i++ {
